@@ -107,6 +107,15 @@ func genC12(seed int64, tier string) []caseOut {
 		emitList("systematic,fails-at-2-between-replaces", mkDoc(), A{mkReplace(), bad(), mkReplace()})
 		emitList("systematic,fails-at-1-then-two-replaces", mkDoc(), A{bad(), mkReplace(), note(), mkReplace()})
 		emitList("systematic,fails-at-3-after-replace", mkDoc(), A{note(), mkReplace(), bad()})
+		// previous documents holding null members (what a replace without keys, or the removal of the
+		// last key, leaves behind): the caller's document stays exactly as it is
+		nullDoc := func() M {
+			return M{"publicKey": nil, "service": A{validService(fr, "olds")}, "note": nil, "other": M{"k": nil}}
+		}
+		emitList("systematic,null-members-succeeding-list", nullDoc(), A{note()})
+		emitList("systematic,null-members-failing-list", nullDoc(), A{note(), bad()})
+		emitList("systematic,null-members-add-keys", nullDoc(), A{M{"action": "add-public-keys", "publicKeys": A{validKey(fr, "a1")}}})
+		emitList("systematic,null-members-remove-unknown", nullDoc(), A{M{"action": "remove-services", "ids": A{"nosuch"}}})
 		emitList("systematic,fails-at-1-then-add", mkDoc(), A{bad(), M{"action": "add-public-keys", "publicKeys": A{validKey(fr, "a1")}}})
 	}
 	for i := 0; i < n; i++ {
